@@ -204,6 +204,20 @@ func (db *DB) FindInBatches(dest interface{}, batchSize int, fc func(tx *DB, bat
 		}
 	}
 
+	// group OR conditions, the primary key cursor of the following batches
+	// has to apply to every one of them
+	if c, ok := tx.Statement.Clauses["WHERE"]; ok {
+		if where, ok := c.Expression.(clause.Where); ok {
+			for _, expr := range where.Exprs {
+				if orCond, ok := expr.(clause.OrConditions); ok && len(orCond.Exprs) == 1 {
+					c.Expression = clause.Where{Exprs: []clause.Expression{clause.And(where.Exprs...)}}
+					tx.Statement.Clauses["WHERE"] = c
+					break
+				}
+			}
+		}
+	}
+
 	for {
 		result := queryDB.Limit(batchSize).Find(dest)
 		rowsAffected += result.RowsAffected
